@@ -102,7 +102,7 @@ func TestC15Decode(t *testing.T) {
 		run(b, t.Fatalf)
 		return
 	}
-	rapid.Check(t, func(rt *rapid.T) {
+	checkBudget(t, func(rt *rapid.T) {
 		var buf bytes.Buffer
 		n := rapid.IntRange(1, 4).Draw(rt, "nframes")
 		for i := 0; i < n; i++ {
